@@ -23,7 +23,7 @@ OBLIGATIONS = [
        allow_nobody=['echs_toid_gen', 'echs_tzob_offs', 'echs_instant_loc', 'echs_log', 'echs_errlog'], unwindset={'echs_instant_fixup.*': 3, 'echs_instant_add.*': 3},
        sym='wall-clock DTSTART (second resolution) and DTEND a whole number of wall-clock hours later, Europe/Berlin 2015-03-28..30', bounds='both ends within the three days around the DST switch',
        stubs=['zone stand-in for Europe/Berlin at that switch (CBMC); the native replay reads the real zoneinfo']),
-    ob('dtend_limit_is_elapsed_utc_time', ['SIDE_E'], incl=['src/evical.c'], units=['src/instant.c', 'src/scale.c'], enc=['make_task', 'echs_instant_diff', 'echs_instant_add'], solver='cadical', checks=[], tiers=('thorough',), timeout=3400,
+    ob('dtend_limit_is_elapsed_utc_time', ['SIDE_E'], incl=['src/evical.c'], units=['src/instant.c', 'src/scale.c'], enc=['make_task', 'echs_instant_diff', 'echs_instant_add'], solver='cadical', checks=[], timeout=1200,
        allow_nobody=['echs_toid_gen', 'echs_tzob_offs', 'echs_instant_loc', 'echs_log', 'echs_errlog'], unwindset={'echs_instant_fixup.*': 3, 'echs_instant_add.*': 3},
        sym='wall-clock DTSTART and DTEND (second resolution) in Europe/Berlin over 2015-03-28..30', bounds='both ends within the three days around the DST switch',
        stubs=['zone stand-in for Europe/Berlin at that switch (CBMC); the native replay reads the real zoneinfo']),
